@@ -12,7 +12,14 @@ use std::panic::{catch_unwind, AssertUnwindSafe};
 
 pub fn equil_problem(rng: &mut StdRng) -> Problem {
     let o = GenOpts { nmax: 6, max_cones: 4, soc_max: 5, psd_max: 3, density: 0.7, ..Default::default() };
-    let mut p = gen::planted_feasible(rng, &o);
+    // (a quarter of the problems carry an equality block of several rows: scalar cones keep one factor PER ROW)
+    let mut p = if rng.gen::<f64>() < 0.25 {
+        let mut cl = vec![ConeSpec::Zero(rng.gen_range(2..=4)), ConeSpec::Nonneg(rng.gen_range(1..=3))];
+        if rng.gen::<bool>() { cl.push(ConeSpec::Soc(rng.gen_range(3..=5))); }
+        if rng.gen::<bool>() { cl.swap(0, 1); }
+        let nn = rng.gen_range(2..=5);
+        gen::planted_with_cones(rng, &o, nn, cl)
+    } else { gen::planted_feasible(rng, &o) };
     let (m, n) = (p.m(), p.n());
     let mut a = p.A.to_dense();
     let mut pd = crate::observer::sym_dense(&p.P);
